@@ -263,7 +263,11 @@ func buildScript4(t *sim.Tape, mode string) []step4 {
 			id := r.id
 			add(step4{name: r.name + "Request", dir: 0, id: &id, obj: req, fresh: r.req})
 			if t.Chance(1, 6) {
-				e := &rhp4.RPCError{Code: uint8(t.Range(1, 6)), Description: string(hexish(sim.HashBytes("err", uint64(i), 0, t.Range(0, 200))))}
+				dl := t.Range(0, 200)
+				if t.Chance(1, 4) {
+					dl = pick(t, 1015, 1014, 1000) // an error as long as an error may be (1024 bytes encoded), and a little shorter
+				}
+				e := &rhp4.RPCError{Code: uint8(t.Range(1, 6)), Description: string(hexish(sim.HashBytes("err", uint64(i), 0, dl)))}
 				resp := r.resp()
 				st := step4{name: r.name + "Response(error)", dir: 1, obj: resp, fresh: r.resp, rpcErr: e}
 				st.limit = rhp4.VerifMaxLen(resp) + 1024
